@@ -103,6 +103,116 @@ theorem meshgrid_length (xs ys : List Rat) : (meshgridIJ xs ys).length = xs.leng
   | nil => simp
   | cons x xs ih => simp [List.flatMap_cons, ih, Nat.succ_mul, Nat.add_comm]
 
+
+/-! ### the whole GridScan: constructor → positions and axes (composition with the C17 grid theorems) -/
+
+lemma list_len2 {α} (l : List α) (h : l.length = 2) : ∃ x y, l = [x, y] := by
+  match l, h with
+  | [x, y], _ => exact ⟨x, y, rfl⟩
+
+open AbtemVerif.Grid in
+/-- what `GridScan(start, end, gpts=…, sampling=…, endpoint=…)` stores, for admissible arguments with `end > start`
+on both axes and at least one of gpts / sampling given: admissible gpts `n₀, n₁`, the extent `end − start`, and the
+sampling `_adjust_sampling` computes from them -/
+lemma gridInit_shape (a b : Rat × Rat) (gpts sampling : Val) (ep : List Bool) (s : GridScan)
+    (hinit : gridInit (some a) (some b) gpts sampling ep = .ok s)
+    (hx : 0 < b.1 - a.1) (hy : 0 < b.2 - a.2) (hep : ep.length = 2) (hG : GoodVal ep gpts) (hS : PosVal sampling)
+    (hdef : gpts ≠ Val.none ∨ sampling ≠ Val.none) :
+    ∃ n0 n1 e0 e1, ep = [e0, e1] ∧ minG e0 ≤ n0 ∧ minG e1 ≤ n1 ∧ s.start = some a ∧ s.stop = some b ∧
+      s.grid.endpoint = [e0, e1] ∧ s.grid.gpts = some [n0, n1] ∧
+      s.grid.sampling = some [adjustSamplingElt (b.1 - a.1) n0 e0, adjustSamplingElt (b.2 - a.2) n1 e1] ∧
+      s.grid.extent = some [b.1 - a.1, b.2 - a.2] := by
+  obtain ⟨e0, e1, rfl⟩ := list_len2 ep hep
+  have hnle : ¬ (b.1 - a.1 ≤ 0) := not_le.mpr hx
+  simp only [gridInit, gridExtent, hnle, decide_false, Bool.false_and, Bool.false_eq_true, if_false] at hinit
+  rcases hg : Grid.init 2 [e0, e1] (Val.seq [b.1 - a.1, b.2 - a.2]) gpts sampling false false false with err | g
+  · simp [hg] at hinit
+  simp only [hg, Except.ok.injEq] at hinit
+  subst hinit
+  have hve : validate 2 (Val.seq [b.1 - a.1, b.2 - a.2]) = .ok (some [b.1 - a.1, b.2 - a.2]) := by simp [validate]
+  have hrp : PosL [b.1 - a.1, b.2 - a.2] := by
+    intro z hz; simp only [List.mem_cons, List.mem_nil_iff, or_false] at hz; rcases hz with rfl | rfl <;> assumption
+  have hne : Val.seq [b.1 - a.1, b.2 - a.2] ≠ Val.none := by intro h; cases h
+  rcases hvg : validate 2 gpts with e1' | go
+  · simp [Grid.init, hve, hvg] at hg
+  rcases hvs : validate 2 sampling with e1' | so
+  · simp [Grid.init, hve, hvg, hvs] at hg
+  rcases go with _ | nl <;> rcases so with _ | ds
+  · -- neither gpts nor sampling: excluded
+    have h1 := validate_none hvg; have h2 := validate_none hvs
+    rcases hdef with h | h <;> contradiction
+  · -- sampling only
+    have h2 := validate_none hvg
+    subst h2
+    obtain ⟨hdl, hdp⟩ := validate_pos hvs hS
+    obtain ⟨d0, d1, rfl⟩ := list_len2 ds hdl
+    have hd0 : d0 ≠ 0 := ne_of_gt (hdp d0 (by simp))
+    have hd1 : d1 ≠ 0 := ne_of_gt (hdp d1 (by simp))
+    simp only [Grid.init, hve, hvg, hvs] at hg
+    simp [hne, adjustGpts, hd0, hd1, adjustSampling, zipWith3, Res.bind] at hg
+    subst hg
+    refine ⟨adjustGptsElt (b.1 - a.1) d0 e0, adjustGptsElt (b.2 - a.2) d1 e1, e0, e1, rfl, ?_, ?_, rfl, rfl, rfl, rfl, rfl, rfl⟩
+    · exact adjustGpts_good _ _ _ hx (hdp d0 (by simp))
+    · exact adjustGpts_good _ _ _ hy (hdp d1 (by simp))
+  · -- gpts only
+    have h3 := validate_none hvs
+    subst h3
+    obtain ⟨hnl0, hg'⟩ := validate_good hvg hG
+    obtain ⟨m0, m1, rfl⟩ := list_len2 nl hnl0
+    simp only [Grid.init, hve, hvg, hvs] at hg
+    simp [adjustSampling, zipWith3, Res.bind] at hg
+    subst hg
+    refine ⟨AbtemVerif.Py.pyInt m0, AbtemVerif.Py.pyInt m1, e0, e1, rfl, ?_, ?_, rfl, rfl, rfl, rfl, rfl, rfl⟩
+    · exact hg' 0 _ e0 (by simp) (by simp)
+    · exact hg' 1 _ e1 (by simp) (by simp)
+  · -- both: the given sampling is overwritten
+    obtain ⟨hnl0, hg'⟩ := validate_good hvg hG
+    obtain ⟨m0, m1, rfl⟩ := list_len2 nl hnl0
+    simp only [Grid.init, hve, hvg, hvs] at hg
+    simp [hne, adjustSampling, zipWith3, Res.bind] at hg
+    subst hg
+    refine ⟨AbtemVerif.Py.pyInt m0, AbtemVerif.Py.pyInt m1, e0, e1, rfl, ?_, ?_, rfl, rfl, rfl, rfl, rfl, rfl⟩
+    · exact hg' 0 _ e0 (by simp) (by simp)
+    · exact hg' 1 _ e1 (by simp) (by simp)
+
+lemma toNat_cast_of_minG {n : Int} {e : Bool} (h : minG e ≤ n) : ((n.toNat : Nat) : Int) = n := by
+  have := minG_pos e
+  omega
+
+open AbtemVerif.Grid in
+/-- **GridScan geometry, end to end.** For every GridScan the constructor builds from admissible arguments
+(`end > start` on both axes, gpts and/or sampling given as scalars or pairs, any endpoint pair):
+`get_positions()` is the `ij` mesh of `start + k·sampling` along each axis with `gpts` positions per axis — where
+`sampling` is the scan's *reported* sampling — and the two `ScanAxis` objects of `ensemble_axes_metadata` have exactly
+those coordinates. -/
+theorem gridscan_geometry (a b : Rat × Rat) (gpts sampling : Val) (ep : List Bool) (s : GridScan)
+    (hinit : gridInit (some a) (some b) gpts sampling ep = .ok s)
+    (hx : 0 < b.1 - a.1) (hy : 0 < b.2 - a.2) (hep : ep.length = 2) (hG : GoodVal ep gpts) (hS : PosVal sampling)
+    (hdef : gpts ≠ Val.none ∨ sampling ≠ Val.none) :
+    ∃ (n0 n1 : Nat) (d0 d1 : Rat) (e0 e1 : Bool),
+      s.grid.gpts = some [(n0 : Int), (n1 : Int)] ∧ s.grid.sampling = some [d0, d1] ∧ s.grid.endpoint = [e0, e1] ∧
+      gridPositions s = .ok ((List.range n0).map (fun (k : Nat) => a.1 + (k : Rat) * d0),
+                             (List.range n1).map (fun (k : Nat) => a.2 + (k : Rat) * d1)) ∧
+      gridAxes s = .ok [(d0, a.1, e0), (d1, a.2, e1)] ∧
+      axisCoordinates a.1 d0 (n0 : Int) = .ok ((List.range n0).map fun (k : Nat) => a.1 + (k : Rat) * d0) ∧
+      axisCoordinates a.2 d1 (n1 : Int) = .ok ((List.range n1).map fun (k : Nat) => a.2 + (k : Rat) * d1) ∧
+      a.1 + ((n0 - 1 : Nat) : Rat) * d0 = (if e0 then b.1 else b.1 - d0) ∧
+      a.2 + ((n1 - 1 : Nat) : Rat) * d1 = (if e1 then b.2 else b.2 - d1) := by
+  obtain ⟨n0, n1, e0, e1, _, hn0, hn1, hst, hsp, hepg, hgp, hsa, _⟩ := gridInit_shape a b gpts sampling ep s hinit hx hy hep hG hS hdef
+  have c0 := (adjustSampling_cons (b.1 - a.1) n0 e0 hx hn0).2
+  have c1 := (adjustSampling_cons (b.2 - a.2) n1 e1 hy hn1).2
+  have t0 := toNat_cast_of_minG hn0
+  have t1 := toNat_cast_of_minG hn1
+  refine ⟨n0.toNat, n1.toNat, adjustSamplingElt (b.1 - a.1) n0 e0, adjustSamplingElt (b.2 - a.2) n1 e1, e0, e1,
+    by rw [t0, t1]; exact hgp, hsa, hepg, ?_, ?_, axis_coordinates_spec _ _ _, axis_coordinates_spec _ _ _, ?_, ?_⟩
+  · have p0 := gridscan_positions a.1 b.1 _ n0.toNat e0 (by rw [t0]; exact c0) (by rw [t0]; exact hn0)
+    have p1 := gridscan_positions a.2 b.2 _ n1.toNat e1 (by rw [t1]; exact c1) (by rw [t1]; exact hn1)
+    rw [t0] at p0; rw [t1] at p1
+    simp only [gridPositions, hst, hsp, hgp, hepg, p0, p1]
+  · simp only [gridAxes, hsa, hst, hepg, gridAxisSampling, gridAxisOffset]
+  · exact gridscan_last_position a.1 b.1 _ n0.toNat e0 (by rw [t0]; exact c0) (by rw [t0]; exact hn0)
+  · exact gridscan_last_position a.2 b.2 _ n1.toNat e1 (by rw [t1]; exact c1) (by rw [t1]; exact hn1)
+
 /-! ### LineScan -/
 
 /-- `LineScan._adjust_sampling`: the reported sampling is `extent / (gpts − 1)` with endpoint and more than one
@@ -220,6 +330,16 @@ theorem linescan_axis_coordinates (l : LineScan) (n : Nat) (s : Rat) (hs : l.sam
   simp only [lineAxis, hs, lineArgs, lineAxisSampling, lineAxisOffset, Option.getD_some, Except.map]
   rw [axis_coordinates_spec]
   simp
+
+/-! ### an observation about the setters (documented in design/C20.md) -/
+
+/-- observation (outside the claims of C20, see design/C20.md): with `endpoint=True`, re-assigning the *same* end point
+drops one scan position, because `_adjust_gpts` recomputes `⌈extent / sampling⌉` from the reported sampling `extent/(gpts−1)` -/
+theorem linescan_reassigning_end_drops_a_position :
+    (lineInit (some (0, 0)) (some (3, 4)) 5 (some 10) none true).gpts = some 10 ∧
+    (lineSetStop (lineInit (some (0, 0)) (some (3, 4)) 5 (some 10) none true) (3, 4) 5).gpts = some 9 ∧
+    (lineSetStop (lineInit (some (0, 0)) (some (3, 4)) 5 (some 10) none false) (3, 4) 5).gpts = some 10 := by
+  refine ⟨by decide +kernel, by decide +kernel, by decide +kernel⟩
 
 /-! ### probe position = periodic shift (1-D DFT, whole-pixel shifts) -/
 
